@@ -2,6 +2,7 @@
 import json, os, re, glob
 OVERRIDE = {"C01-c": "RuleLocal::van_matrix (semilocalp): values of columns 1 and 2 pushed in swapped order", "C01-d": "beginConstruction() no longer drops a pending refinement"}
 rows = []
+FIRST = json.load(open("/verif/seeded/first_results.json")) if os.path.exists("/verif/seeded/first_results.json") else {}
 for d in sorted(glob.glob("/verif/seeded/*_?")):
     m = json.load(open(os.path.join(d, "meta.json")))
     P, V = m["property"], m["variant"]
@@ -25,6 +26,8 @@ for d in sorted(glob.glob("/verif/seeded/*_?")):
     if m["check_exit"] == 1:
         res += " by " + ", ".join("`%s`" % o for o in obs[:3]) + (" …" if len(obs) > 3 else "")
         res += "; replay confirmed on the real code" if conf else "; no replayable input (obligation + solver output in the replay file)"
+    if "%s-%s" % (P, V) in FIRST:
+        res += ". *First run:* " + FIRST["%s-%s" % (P, V)]
     rows.append("| %s-%s | %s | %s |" % (P, V, title[:150].replace("|", "/"), res))
 print("| change | what was changed | quick check of that property |\n|---|---|---|")
 print("\n".join(rows))
